@@ -8,7 +8,10 @@ Streams
   theorem     theorem-hypothesis tie: the driver evaluates the hypotheses of C02_tag_value_exact / C02_frame /
               C02_copyright_exact_partial on the physical line of every grid case; where they hold the implementation must
               return exactly the planted value
-  textlines   theorem-hypothesis tie for C02_tag_lines: texts of several tag lines
+  textlines   theorem-hypothesis tie for C02_tag_lines / C02_tag_lines_general: texts of several tag lines
+  infolines   theorem-hypothesis tie for C02_extract_exact / C02_file_exact: texts of licence, contributor, notice and information-free
+              lines in any order; where the line-by-line hypotheses hold the result must be exactly what is planted
+  blocklines  the same with ignore blocks hiding further lines (C02_extract_exact_with_blocks / C02_file_exact_with_blocks)
   lint        a sample of grid files through `reuse lint --json`
   window      tag lines around the 4096-byte boundary, multi-byte characters on the cut, snippet marker before / after / absent
   snippetfile files with a snippet marker: the marker straddling 4096*k and every buffer-size-like offset from 4 KiB to 1 MiB (powers of two,
@@ -571,8 +574,12 @@ class TheoremStream(Stream):
         if b["framed"]:
             return ["c02framed\t%s\t%s\t%s\t%s\t%s\t%s\t%s" % (case["kind"], enc(b["pre"]), enc(b["blanks"]), enc(b["v"]), enc(b["ws"]),
                                                              enc(b["trail"]), enc(case["le"]))]
-        return ["c02hyp\t%s\t%s\t%s\t%s\t%s\t%s" % (case["kind"], enc(b["pre"]), enc(b["blanks"]), enc(b["v"]), enc(b["trail"]),
-                                                   enc(case["le"]))]
+        args = (case["kind"], enc(b["pre"]), enc(b["blanks"]), enc(b["v"]), enc(b["trail"]), enc(case["le"]))
+        # the hypotheses of C02_tag_value_exact, and those of C02_value_exact (tailSafe: finer, independent of the trail)
+        return ["c02hyp\t%s\t%s\t%s\t%s\t%s\t%s" % args, "c02hyp2\t%s\t%s\t%s\t%s\t%s\t%s" % args]
+
+    def model_out(self, case, outs):
+        return ";".join(outs)
 
     def agree(self, case, impl_out, model_out):
         if case["kind"] == "C":
@@ -581,8 +588,10 @@ class TheoremStream(Stream):
                 return True
             if dec(line) != case["value"]:
                 return False          # the theorem's line is not the planted notice
-        elif model_out != "1":
+        elif "1" not in model_out.split(";"):
             return True
+        elif model_out == "0;1":
+            return False              # C02_value_exact's hypotheses imply those of C02_tag_value_exact (C02L.wfValue_of_safe)
         self._hyp = getattr(self, "_hyp", set())
         self._hyp.add(self.key(case))
         return impl_out.startswith("ok|")
@@ -607,7 +616,7 @@ class TextTieStream(Stream):
             "non-trivial = hypotheses hold")
 
     def cases(self, tier, rng):
-        pool = [c for c in grid_cases(tier, rng, 1) if c["kind"] in "LN" and "frame" not in c["deco"]]
+        pool = [c for c in grid_cases(tier, rng, 1) if c["kind"] in "LN"]       # framed lines too (C02_tag_lines_general)
         n = 4000 if tier == "thorough" else 500
         for _ in range(n):
             kind = rng.choice("LN")
@@ -629,11 +638,28 @@ class TextTieStream(Stream):
 
     def model_lines(self, case):
         bs = self.parts(case)
+        # the per-text hypotheses of C02_tag_lines, and the line-local ones of C02_tag_lines_general (the text ends with a line
+        # feed: an empty last line)
+        new = "c02linesg\t%s\t%s\t%s\t%s\t%s\t%s\t%s" % (
+            case["kind"], "".join("R" if b["framed"] else "T" for b in bs) + "F", enc_list([b["pre"] for b in bs] + [""]),
+            enc_list([b["blanks"] for b in bs] + [""]), enc_list([b["v"] for b in bs] + [""]),
+            enc_list([b["trail"] for b in bs] + [""]), enc_list([b["ws"] for b in bs] + [""]))
+        if any(b["framed"] for b in bs):
+            return [new]              # C02_tag_lines has no framed lines
         return ["c02lines\t%s\t%s\t%s\t%s\t%s" % (case["kind"], enc_list(b["pre"] for b in bs), enc_list(b["blanks"] for b in bs),
-                                                    enc_list(b["v"] for b in bs), enc_list(b["trail"] for b in bs))]
+                                                    enc_list(b["v"] for b in bs), enc_list(b["trail"] for b in bs)), new]
+
+    def model_out(self, case, outs):
+        return "#".join(outs)
 
     def agree(self, case, impl_out, model_out):
-        if model_out != "1":
+        old, new = model_out.split("#") if "#" in model_out else ("0", model_out)
+        hyp, text, values = new.split("|")
+        if hyp == "1":
+            bs = self.parts(case)
+            if dec(text) != "".join(b["line"] + "\n" for b in bs) or dec_list(values) != [b["v"] for b in bs]:
+                return False          # the theorem's text / promise is not the planted one
+        if old != "1" and hyp != "1":
             return True
         self._hyp = getattr(self, "_hyp", set())
         self._hyp.add(self.key(case))
@@ -648,6 +674,272 @@ class TextTieStream(Stream):
 
     def show(self, case):
         return {"text": "".join(b["line"] + "\n" for b in self.parts(case)), "kind": case["kind"]}
+
+
+# --------------------------------------------------------------------------
+# theorem-hypothesis tie for whole texts of mixed lines (C02_tag_lines_general, C02_copyright_lines, C02_extract_exact, C02_file_exact)
+
+FREE_LINES = ["", "", "#!/bin/sh", "int main() {", "x = \"unclosed", "y = 'a", "z = [1, 2]", "a = b[i]", "/*", " */", "-->", "<!--",
+              "# just a comment", "\tindented_code();", "echo \"$x\" >", "]::", "\'\'\'", "# SPDX-License-Identifier", "SPDX-License-Identifier:MIT",
+              "SPDX-FileContributor:", "# h\u00e9llo \u2014 w\u00f6rld", "// \u65e5\u672c\u8a9e", "{% comment %}", "=begin", "\"\"\"", "name = \"x\"",
+              "items = ['a',", "<tag attr=\"v\"", "# Copyright", "(c)", "# see COPYING", "   ", "\t", "dnl", "REM", "*)", "#}", "l = [", "q = '"]
+
+
+class InfoLinesStream(Stream):
+    name = "infolines"
+    rule = ("texts of 2-8 lines in random order: licence, contributor and copyright-notice lines taken from the grid (different styles, "
+            "forms, decorations and values in one text) and information-free lines from a pool (code, prose, unclosed quotes and brackets, "
+            "comment openers and closers, look-alikes such as `SPDX-License-Identifier:MIT`), with and without a final line feed; one text in "
+            "eight carries a snippet marker and enough filler to exceed 4096 bytes.  The driver evaluates the line-by-line hypotheses of "
+            "C02_extract_exact (Spec.InfoLine.ok on the generated END pattern: every condition about one line alone) and the size / snippet "
+            "hypothesis of C02_file_exact / C02_file_exact_line_endings; where they hold extract_reuse_info(text) and reuse_info_of_file "
+            "on the real file in LF, CRLF and CR form must return exactly the planted licence expressions, notices and contributors and nothing else (generator ground truth), and the "
+            "theorem's text and promise must be the planted ones; non-trivial = hypotheses hold")
+
+    def cases(self, tier, rng):
+        pool = [c for c in grid_cases(tier, rng, 1) if c["kind"] in "LN" or (c["parts"]["p"] is not None and "frame" not in c["deco"])]
+        n = 6000 if tier == "thorough" else 700
+        for _ in range(n):
+            items = []
+            for _ in range(rng.randint(2, 8)):
+                if rng.random() < 0.35:
+                    items.append({"free": rng.choice(FREE_LINES)})
+                else:
+                    items.append({"grid": dict(rng.choice(pool), eol="\n")})
+            if rng.random() < 0.125:
+                k = rng.randint(0, len(items))
+                items[k:k] = [{"free": "# " + SNIPPET}] + [{"free": "# filler line %04d of a long file ......" % i} for i in range(130)]
+            if rng.random() < 0.6:
+                items.append({"free": ""})          # the text ends with a line feed
+            yield {"items": items}
+
+    def parts(self, case):
+        """(kind, build) per line; grid lines that cannot be built (frames in inline comments) are dropped"""
+        out = []
+        for it in case["items"]:
+            if "free" in it:
+                out.append(("O", {"line": it["free"]}, None))
+            else:
+                b = case_build(it["grid"])
+                if b is not None:
+                    out.append((self.kind_of(it["grid"], b), b, it["grid"]))
+        return out
+
+    @staticmethod
+    def kind_of(g, b):
+        """L / N / C, or M / P for a licence / contributor line inside an ASCII-art frame"""
+        return {"L": "M", "N": "P"}[g["kind"]] if b["framed"] else g["kind"]
+
+    def text(self, case):
+        return "\n".join(b["line"] for _, b, _ in self.parts(case))
+
+    def planted(self, case):
+        lic, cpr, con = [], [], []
+        for k, b, g in self.parts(case):
+            if k in "LM":
+                lic.append(b["v"])
+            elif k == "C":
+                cpr.append(g["value"])
+            elif k in "NP":
+                con.append(b["v"])
+        return lic, cpr, con
+
+    def impl(self, case):
+        from reuse import extract
+        text = self.text(case)
+        try:
+            info = extract.extract_reuse_info(text)
+            t = canon_info(info)
+        except Exception as e:
+            t = "EXC:%s" % type(e).__name__
+        return "##".join([t] + [impl_info_of_bytes(text.replace("\n", eol).encode("utf-8")) for eol in self.EOLS])
+
+    EOLS = ("\n", "\r\n", "\r")          # C02_file_exact_line_endings: id, toCRLF, toCR
+
+    def model_lines(self, case):
+        ps = self.parts(case)
+        kinds, pres, blanks, vs, trails, keys, yforms = "", [], [], [], [], [], []
+        for k, b, g in ps:
+            kinds += k
+            if k == "O":
+                pres.append(b["line"]); blanks.append(""); vs.append(""); trails.append(""); keys.append(""); yforms.append("")
+            elif k in "LN":
+                pres.append(b["pre"]); blanks.append(b["blanks"]); vs.append(b["v"]); trails.append(b["trail"]); keys.append(""); yforms.append("")
+            elif k in "MP":
+                pres.append(b["pre"]); blanks.append(b["blanks"]); vs.append(b["v"]); trails.append(b["trail"]); keys.append(enc(b["ws"])); yforms.append("")
+            else:
+                y = g["parts"]["y"]
+                if y is None:
+                    yf = "none"
+                elif len(y) == 4:
+                    yf = "single/" + enc(y)
+                else:
+                    mid = y[4:-4]
+                    yf = "range/%s/%s/%s/%s" % (enc(y[:4]), "1" if mid.startswith(" ") else "0", "1" if mid.endswith(" ") else "0", enc(y[-4:]))
+                pres.append(b["pre"]); blanks.append(""); vs.append(g["parts"]["h"]); trails.append(b["trail"])
+                keys.append(g["parts"]["p"]); yforms.append(yf)
+        if not ps:
+            return []
+        return ["c02info\t%s\t%s\t%s\t%s\t%s\t%s\t%s" % (kinds, enc_list(pres), enc_list(blanks), enc_list(vs), enc_list(trails),
+                                                            ";".join(keys), ";".join(yforms))]
+
+    @staticmethod
+    def first_occurrences(l):
+        out = []
+        for x in l:
+            if x not in out:
+                out.append(x)
+        return out
+
+    def agree(self, case, impl_out, model_out):
+        hyp, text, lic, cpr, con, fit = model_out.split("|")
+        if hyp != "1":
+            return True
+        plic, pcpr, pcon = self.planted(case)
+        if dec(text) != self.text(case):
+            return False              # the theorem's text is not the planted one
+        if (dec_list(lic), dec_list(cpr), dec_list(con)) != tuple(self.first_occurrences(x) for x in (plic, pcpr, pcon)):
+            return False              # the theorem's promise is not the generator's ground truth
+        exprs = {parse_expr(v) for v in plic}
+        if None in exprs:
+            return True               # hypothesis `hparse` of C02_file_exact fails (not generated)
+        want = canon(exprs, set(pcpr), set(pcon))
+        got = impl_out.split("##")
+        self._hyp = getattr(self, "_hyp", set())
+        self._hyp.add(self.key(case))
+        if got[0] != want:
+            return False
+        for flag, got_file in zip(fit, got[1:]):
+            if flag == "1":
+                self._fit = getattr(self, "_fit", 0) + 1
+                if got_file != (want if (plic or pcpr) else canon([], [], [])):
+                    return False
+        return True
+
+    def key(self, case):
+        return tuple(("O", it["free"]) if "free" in it else (it["grid"]["style"], it["grid"]["form"], it["grid"]["deco"], it["grid"]["value"])
+                     for it in case["items"])
+
+    def nontrivial(self, case, impl_out):
+        k = self.key(case)
+        return k if k in getattr(self, "_hyp", ()) else None
+
+    def show(self, case):
+        return {"text": self.text(case), "planted": self.planted(case)}
+
+
+IGNORE_START = "REUSE-IgnoreStart"
+IGNORE_END = "REUSE-IgnoreEnd"
+MARKER_DECOS = [("# ", ""), ("// ", ""), ("<!-- ", " -->"), ("", ""), ("/* ", " */"), ("\t; ", "  "), (" * ", "")]
+
+
+class BlockLinesStream(InfoLinesStream):
+    name = "blocklines"
+    rule = ("the texts of `infolines` with 1-2 ignore blocks inserted at line boundaries (marker lines in seven comment spellings; hidden "
+            "part: 0-3 grid tag lines / notices / free lines, sometimes a second REUSE-IgnoreStart; sometimes a last block that is never "
+            "closed).  The driver evaluates the hypotheses of C02_extract_exact_with_blocks / C02_file_exact_with_blocks (Spec.chunksOK, "
+            "the visible parts glued together are the theorem's text of lines, Spec.InfoLine.ok for each of them incl. the seam lines); where "
+            "they hold extract_reuse_info and reuse_info_of_file must return exactly what is planted in the visible lines — nothing of "
+            "what the blocks hide; non-trivial = hypotheses hold")
+
+    def cases(self, tier, rng):
+        pool = [c for c in grid_cases(tier, rng, 1) if c["kind"] in "LN" or (c["parts"]["p"] is not None and "frame" not in c["deco"])]
+        n = 3000 if tier == "thorough" else 350
+
+        def item():
+            if rng.random() < 0.35:
+                return {"free": rng.choice(FREE_LINES)}
+            return {"grid": dict(rng.choice(pool), eol="\n")}
+
+        for _ in range(n):
+            entries = [item() for _ in range(rng.randint(1, 6))]
+            for _ in range(rng.randint(1, 2)):
+                (mpre, mpost), (epre, epost) = rng.choice(MARKER_DECOS), rng.choice(MARKER_DECOS)
+                hidden = [item() for _ in range(rng.randint(0, 3))]
+                if rng.random() < 0.2:
+                    hidden.insert(rng.randint(0, len(hidden)), {"free": "# " + IGNORE_START})
+                entries.insert(rng.randint(0, len(entries)), {"block": {"mpre": mpre, "mpost": mpost, "epre": epre, "epost": epost, "hidden": hidden}})
+            if rng.random() < 0.25:
+                mpre, mpost = rng.choice(MARKER_DECOS)
+                entries.append({"open": {"mpre": mpre, "mpost": mpost, "hidden": [item() for _ in range(rng.randint(0, 2))]}})
+            elif rng.random() < 0.6:
+                entries.append({"free": ""})
+            yield {"entries": entries}
+
+    @staticmethod
+    def line_of(it):
+        if "free" in it:
+            return it["free"]
+        b = case_build(it["grid"])
+        return None if b is None else b["line"]
+
+    def layout(self, case):
+        """(visible parts as for `infolines`, a0, hidden chunks, visible chunks, open chunk or None)"""
+        vis, chunks_v, chunks_h, opn = [], [], [], None
+        cur, first = "", True
+        for e in case["entries"]:
+            sep = "" if first else "\n"
+            if "block" in e or "open" in e:
+                blk = e.get("block") or e["open"]
+                hid = [l for l in (self.line_of(h) for h in blk["hidden"]) if l is not None]
+                first = False
+                chunks_v.append(cur + sep + blk["mpre"])
+                if "block" in e:
+                    chunks_h.append("\n".join([blk["mpost"]] + hid + [blk["epre"]]))
+                    cur = blk["epost"]
+                    vis.append(("O", {"line": blk["mpre"] + blk["epost"]}, None))
+                else:
+                    opn = "\n".join([blk["mpost"]] + hid)
+                    vis.append(("O", {"line": blk["mpre"]}, None))
+                    cur = None
+                continue
+            if "free" in e:
+                part = ("O", {"line": e["free"]}, None)
+            else:
+                b = case_build(e["grid"])
+                if b is None:
+                    continue
+                part = (self.kind_of(e["grid"], b), b, e["grid"])
+            cur += sep + part[1]["line"]
+            first = False
+            vis.append(part)
+        if cur is not None:
+            chunks_v.append(cur)
+        return vis, chunks_v[0], chunks_h, chunks_v[1:], opn
+
+    def parts(self, case):
+        # the seam line glues what stands before a start marker to what stands after the matching end marker: when the next entry is a
+        # visible line, it continues on the same physical line only through the line feed, so the visible lines are exactly these
+        return self.layout(case)[0]
+
+    def text(self, case):
+        vis, a0, hs, vs, opn = self.layout(case)
+        t = a0
+        for h, v in zip(hs, vs):
+            t += IGNORE_START + h + IGNORE_END + v
+        if opn is not None:
+            t += IGNORE_START + opn
+        return t
+
+    def visible_text(self, case):
+        return "\n".join(b["line"] for _, b, _ in self.parts(case))
+
+    def model_lines(self, case):
+        base = InfoLinesStream.model_lines(self, case)
+        if not base:
+            return []
+        vis, a0, hs, vs, opn = self.layout(case)
+        if len(hs) != len(vs):
+            return []
+        fields = base[0].split("\t")[1:]
+        return ["c02blocks\t%s\t%s\t%s\t%s\t%s" % (enc(a0), enc_list(hs), enc_list(vs), "none" if opn is None else "some:" + enc(opn),
+                                                    "\t".join(fields))]
+
+    def key(self, case):
+        return repr(case["entries"])
+
+    def show(self, case):
+        return {"text": self.text(case), "planted": self.planted(case)}
 
 
 # --------------------------------------------------------------------------
@@ -1515,7 +1807,7 @@ def search(seed):
 
 PROPERTY = Property(
     pid="C02",
-    streams=[CorpusStream(), textcorr.FindTagStream(), textcorr.CSearchStream(), textcorr.ExtractStream(), SmallEnumStream(), GridStream(), TheoremStream(), TextTieStream(),
+    streams=[CorpusStream(), textcorr.FindTagStream(), textcorr.CSearchStream(), textcorr.ExtractStream(), SmallEnumStream(), GridStream(), TheoremStream(), TextTieStream(), InfoLinesStream(), BlockLinesStream(),
              LintStream(), WindowStream(), SnippetFileStream(), NotationStream(), ParseErrorStream(), DecodeStream()],
     assumptions=[
         "CPython's re engine on the tag patterns (`^(.*?)TAG[ \\t]+(.*?)END$`, MULTILINE, findall) and on the three copyright patterns is "
